@@ -641,7 +641,7 @@ theorem switchLoop_ok {fuel : Nat} (ih : FileSpecs AP EL S pf ef N fuel) (pos : 
     · apply (ih.switchLoop _ _ _ _ _ st1 hend hcs (upw% hi1) (by omega) (by omega)).mono
       intro r st2 ⟨c, a, b⟩
       exact ⟨c, a, by omega⟩
-    · exact funexpected_textStart_safe hs1 (fun hl => ht1 ▸ hi1.valid_top hl)
+    · exact funexpected_textStart_safe hs1 (fun hl => ht1 ▸ hi1.valid_top hl) (by simpa using hc)
   split
   · rename_i hc
     have hr : real tok = 1 := by
@@ -751,7 +751,7 @@ theorem orphanLoop_ok {fuel : Nat} (ih : FileSpecs AP EL S pf ef N fuel) (initia
     apply rawtextP_safe
     intro text
     split
-    · exact funexpected_textStart_safe hs (fun hl => htop ▸ hi.valid_top hl)
+    · exact funexpected_textStart_safe hs (fun hl => htop ▸ hi.valid_top hl) (by simpa using hc)
     · apply FSafe.bind
       apply nextNonComment_safe hz fuel st _ (upw% hi) (by omega)
       intro nxt st1 hs1 hi1 hpc1 ht1 hm1
